@@ -146,9 +146,11 @@ func (r *Recorder) account(data []byte, out Outcome) Outcome {
 	r.mu.Lock()
 	defer r.mu.Unlock()
 	if out.Skip {
-		r.st.Skipped++
-		for _, c := range out.Classes {
-			r.st.Classes[c]++
+		if !r.failed { // executions during shrinking are not counted
+			r.st.Skipped++
+			for _, c := range out.Classes {
+				r.st.Classes[c]++
+			}
 		}
 		return out
 	}
